@@ -206,25 +206,6 @@ fn strings_of<'a>(v: &'a Value, out: &mut Vec<&'a str>) {
     }
 }
 
-/// `text=bits/…` for every literal the time reading may hand to `str::parse::<f64>`
-fn enc_lits(texts: &[&str]) -> String {
-    let mut seen: Vec<String> = vec![];
-    let mut out = vec![];
-    let mut add = |t: &str| {
-        if t.is_empty() || t.len() > 400 || seen.iter().any(|s| s == t) { return; }
-        if let Ok(x) = t.parse::<f64>() { seen.push(t.to_string()); out.push(format!("{}={}", enc_text(t), bits(x))); }
-    };
-    for t in texts {
-        add(t);
-        for w in t.split_whitespace() {
-            add(w);
-            let n = w.find(|c: char| !c.is_ascii_digit() && c != '.').unwrap_or(w.len());
-            add(&w[..n]);
-        }
-    }
-    if out.is_empty() { "-".into() } else { out.join("/") }
-}
-
 fn enc_alpha(texts: &[&str]) -> String {
     let mut cps: Vec<u32> = texts.iter().flat_map(|t| t.chars()).filter(|c| c.is_alphabetic()).map(|c| c as u32).collect();
     cps.sort_unstable(); cps.dedup();
@@ -311,16 +292,22 @@ impl<'a> Run<'a> {
         let c = &self.convs[ci];
         let input = format!("as_minutes/as_time of {} with the {} converter", serde_yaml::to_string(v).unwrap_or_default().trim_end(), c.name);
         let mut texts = vec![]; strings_of(v, &mut texts);
-        let (cv, lits, yv) = (c.enc(&texts), enc_lits(&texts), enc_yaml(v));
+        let (cv, yv) = (c.enc(&texts), enc_yaml(v));
         let r = guarded(|| (v.as_minutes(&c.conv), v.as_time(&c.conv)));
         let (m, t) = match r { Ok(x) => x, Err(p) => { self.panic(&input, p); return; } };
         self.ctx.count(&format!("time:{family}:{}", if m.is_some() { "some" } else { "none" }));
         self.ctx.count(&format!("conv:{}", c.name));
-        self.ctx.case(format!("sm_minutes {cv} {lits} {yv}"), match m { Some(n) => format!("ok {n}"), None => "none".into() }, m.is_some(), input.clone());
-        self.ctx.case(format!("sm_time {cv} {lits} {yv}"), render_time(&t), t.is_some(), input.clone());
+        self.ctx.case(format!("sm_minutes {cv} {yv}"), match m { Some(n) => format!("ok {n}"), None => "none".into() }, m.is_some(), input.clone());
+        self.ctx.case(format!("sm_time {cv} {yv}"), render_time(&t), t.is_some(), input.clone());
         if !expect.allows(&m) {
             let sig = match (m, expect) { (Some(_), Expect::OneOf(e)) if e == &vec![None] => "c13:time:accepted-outside-forms", (Some(_), _) => "c13:time:wrong-number", (None, _) => "c13:time:rejected-documented-form" };
             self.ctx.oracle_fail(input.clone(), format!("as_minutes gives {m:?}, the documented forms allow {}", expect.show()), sig.into());
+        }
+        // a mapping with neither `prep` nor `cook` is outside the documented forms
+        if let Value::Mapping(mp) = v {
+            if !mp.contains_key("prep") && !mp.contains_key("cook") && t.is_some() {
+                self.ctx.oracle_fail(input.clone(), format!("a mapping with neither prep nor cook reads as {t:?}"), "c13:time:empty-mapping-accepted".into());
+            }
         }
         // as_time of a string or number is the total of as_minutes
         if !matches!(v, Value::Mapping(_)) && t != m.map(RecipeTime::Total) {
@@ -393,7 +380,7 @@ impl<'a> Run<'a> {
             let res = c.parser.parse(&text);
             let warns = res.report().warnings().filter(|w| w.message.starts_with("Unsupported value for key")).count();
             let errors = res.report().errors().count();
-            let out = res.output().map(|rec| (rec.metadata.map.clone(), serde_json::to_value(&rec.data).unwrap_or_default(),
+            let out = res.output().map(|rec| (rec.metadata.map.clone(), rec.servings().map(|s| s.to_vec()),
                 rec.metadata.tags().is_some(), rec.metadata.servings().is_some(), rec.metadata.time(&c.conv), rec.metadata.locale().is_some(),
                 rec.metadata.author().is_some(), rec.metadata.source().is_some(), rec.metadata.title().is_some(), rec.metadata.description().is_some()));
             (warns, errors, out)
@@ -408,8 +395,8 @@ impl<'a> Run<'a> {
         // correspondence: the model's check of this entry
         let mut texts = vec![]; strings_of(&stored, &mut texts);
         let numtext; if let Value::Number(n) = &stored { numtext = n.to_string(); texts.push(&numtext); }
-        let impl_reply = if warns > 0 { "warn".to_string() } else if let Some(l) = data.as_array() { format!("ok servings {}", nats(&l.iter().map(|x| x.as_u64().unwrap_or(0) as u32).collect::<Vec<_>>())) } else { "ok".into() };
-        self.ctx.case(format!("sm_stdcheck {} {} {} {} {}", c.enc(&texts), enc_lits(&texts), enc_alpha(&texts), enc_text(&stored_key), enc_yaml(&stored)), impl_reply, sk.is_some(), input.clone());
+        let impl_reply = if warns > 0 { "warn".to_string() } else if let Some(l) = &data { format!("ok servings {}", nats(l)) } else { "ok".into() };
+        self.ctx.case(format!("sm_stdcheck {} {} {} {}", c.enc(&texts), enc_alpha(&texts), enc_text(&stored_key), enc_yaml(&stored)), impl_reply, sk.is_some(), input.clone());
         self.ctx.count(&format!("entry:{}:{}", if old_style { "old" } else { "yaml" }, match sk { Some(k) => k.as_ref().to_string(), None => "non-std".into() }));
         if warns > 1 { self.ctx.oracle_fail(input.clone(), format!("{warns} warnings for one entry"), "c13:coupling:warned-twice".into()); }
         let Some(sk) = sk else {
@@ -499,18 +486,18 @@ fn pairs_case(rng: &mut Rng, c: &ConvInfo, big: bool) -> Option<(String, Expect<
     if c.time_names.is_empty() { return None; }
     let n = 1 + rng.below(if big { 2 } else { 4 });
     let mut text = String::new();
-    if rng.chance(1, 6) { text += rng.pick(WS); }
+    if rng.chance(1, 6) { text.push_str(rng.pick::<&str>(WS)); }
     let mut total_ns: u128 = 0;
     for i in 0..n {
         let d = gen_dec(rng, big);
         let (u, ms) = rng.pick(&c.time_names).clone();
-        if i > 0 { text += rng.pick(WS); }
+        if i > 0 { text.push_str(rng.pick::<&str>(WS)); }
         text += &d.text();
-        if rng.chance(1, 2) { text += rng.pick(WS); }
+        if rng.chance(1, 2) { text.push_str(rng.pick::<&str>(WS)); }
         text += &u;
         total_ns += d.micro() * ms; // 1e-6 * 1e-3 s = 1e-9 s
     }
-    if rng.chance(1, 6) { text += rng.pick(WS); }
+    if rng.chance(1, 6) { text.push_str(rng.pick::<&str>(WS)); }
     let mut allowed = minutes_of_ns(total_ns);
     // the same text may also be a compact `HhMm` (`5h`, `5m` when m is not the minute …): allow that reading too
     let compact: String = text.clone();
@@ -609,11 +596,11 @@ fn time_cases(run: &mut Run, rng: &mut Rng, n_random: usize) {
         let ci = i % nconv;
         let key = *r2.pick(TIME_KEYS);
         match r2.below(10) {
-            0..=4 => { if let Some((text, e)) = pairs_case(&mut r2, &run.convs[ci], r2.chance(1, 3)) { run.time(ci, &ystr(text.clone()), &e, "pairs"); if i % 4 == 0 { run.entry(ci, key, &ystr(text), i % 8 == 0); } }
+            0..=4 => { let big = r2.chance(1, 3); if let Some((text, e)) = pairs_case(&mut r2, &run.convs[ci], big) { run.time(ci, &ystr(text.clone()), &e, "pairs"); if i % 4 == 0 { run.entry(ci, key, &ystr(text), i % 8 == 0); } }
                        else { let t = format!("{} min", gen_dec(&mut r2, false).text()); run.time(ci, &ystr(t.clone()), &Expect::exactly(None), "pairs-unreadable"); run.entry(ci, key, &ystr(t), false); } }
             5 => { let t = outside_forms(&mut r2, &run.convs[ci]); run.time(ci, &ystr(t.clone()), &Expect::exactly(None), "outside"); run.entry(ci, key, &ystr(t), r2.chance(1, 2)); }
             6 => { let h = r2.next() % 80_000_000; let m = r2.next() % 5000; let (t, e) = hhmm_case(&run.convs[ci], Some((h, r2.below(2))), Some((m, 0))); run.time(ci, &ystr(t.clone()), &e, "hhmm"); if i % 4 == 0 { run.entry(ci, key, &ystr(t), true); } }
-            7 => { let d = gen_dec(&mut r2, true); let e = Expect::OneOf(minutes_of_ns(d.micro() * 60_000 * 1_000_000)); run.time(ci, &ystr(d.text()), &e, "decimal"); run.entry(ci, key, &ystr(d.text()), false); }
+            7 => { let d = gen_dec(&mut r2, true); let e = Expect::OneOf(minutes_of_ns(d.micro() * 60_000)); run.time(ci, &ystr(d.text()), &e, "decimal"); run.entry(ci, key, &ystr(d.text()), false); }
             8 => { // mapping form of `time`
                 let p = r2.next() % 500; let c = r2.next() % 500;
                 let mut m = serde_yaml::Mapping::new();
@@ -629,9 +616,6 @@ fn time_cases(run: &mut Run, rng: &mut Rng, n_random: usize) {
                 let mut m = serde_yaml::Mapping::new();
                 match r2.below(3) { 0 => {}, 1 => { m.insert(ystr("prep_time"), ynum(10)); }, _ => { m.insert(ystr("total"), ystr("1h")); } }
                 let v = Value::Mapping(m);
-                let c = &run.convs[ci];
-                let t = v.as_time(&c.conv);
-                if t.is_some() { run.ctx.oracle_fail(format!("as_time of {} with the {} converter", serde_yaml::to_string(&v).unwrap_or_default().trim_end(), c.name), format!("a mapping with neither prep nor cook reads as {t:?}"), "c13:time:empty-mapping-accepted".into()); }
                 run.time(ci, &v, &Expect::exactly(None), "mapping-empty");
                 run.entry(ci, "time", &v, false);
             }
@@ -709,7 +693,7 @@ fn nameurl_cases(run: &mut Run, rng: &mut Rng, n_random: usize) {
     let names = ["Rachel", "Rachel R. Peterson", "Rachel Peter-son", "Rachel`s Cookbook", "#rachel", "Rachel: Best recipes", "Élodie", "名前", "a>b"];
     let schemes = ["https", "http", "smb", "ftp", "Ünï", "x"];
     let hosts = ["rachel.url", "example.com:8080", "localhost", "éxample.org", "a"];
-    let paths = ["", "/", "/recipes/1?x=<1>", "/a b", "/é"];
+    let paths = ["", "/", "/recipes/1?x=<1>", "/a b", "/é", "/x>y"];
     let paths_plain = ["", "/", "/recipes/1", "/a b", "/é"];
     let t = |n: Option<&str>, u: Option<&str>| Expect::exactly(Some((n.map(str::to_string), u.map(str::to_string))));
     for v in [Value::Null, Value::Bool(true), Value::Sequence(vec![]), Value::Mapping(Default::default())] { run.nameurl(&v, &Expect::exactly(None), "outside"); run.entry(0, "author", &v, false); }
@@ -719,7 +703,11 @@ fn nameurl_cases(run: &mut Run, rng: &mut Rng, n_random: usize) {
     }
     for s in ["", "   "] { run.nameurl(&ystr(s), &t(None, None), "blank"); }
     run.nameurl(&ynum(42), &Expect::Silent, "loose");
-    run.nameurl(&ystr("Bob <not a url>"), &Expect::Silent, "loose");
+    // `Name <x>` where x is not a URL: "if no url is found or it's invalid, everything will be the name"
+    for s in ["Bob <not a url>", "Bob <bob@example.com>", "Bob <1>", "<www.example.com>", "Bob <http://>", "Bob <ht tp://x>", "Bob <http:// x>", "smb://a/recipes/1?x=<1>"] {
+        let e = if s.starts_with("smb") { t(None, Some(s)) } else { t(Some(s), None) };
+        run.nameurl(&ystr(s), &e, "angle-invalid-url"); run.entry(0, "author", &ystr(s), false);
+    }
     for i in 0..n_random {
         let name = *rng.pick(&names);
         let inner = rng.chance(1, 2);
@@ -737,7 +725,7 @@ fn nameurl_cases(run: &mut Run, rng: &mut Rng, n_random: usize) {
             _ => { let mut m = serde_yaml::Mapping::new(); m.insert(ystr("url"), ystr(url.clone())); (Value::Mapping(m), t(None, Some(&url)), "mapping") }
         };
         // `Name <url with angle brackets>` is not one of the forms (the url may not contain `<`/`>`): silent
-        let e = if fam == "name-url" && name.contains('>') { Expect::Silent } else { e };
+        let e = if (fam == "name-url" || fam == "angle-url") && (name.contains('>') || url.contains(['<', '>'])) { Expect::Silent } else { e };
         run.nameurl(&v, &e, fam);
         if i % 3 == 0 { run.entry(i % run.convs.len(), *rng.pick(&["author", "source"]), &v, matches!(v, Value::String(_)) && i % 2 == 0); }
     }
@@ -813,7 +801,7 @@ fn soup(run: &mut Run, rng: &mut Rng, n: usize) {
 }
 
 // ---------------------------------------------------------------------------------------------
-// corpus: conv <TAB> key <TAB> yaml value <TAB> none|some:<n>|any     (run first)
+// corpus: conv <TAB> key <TAB> yaml value <TAB> none|some:<n>|nu:<name or ~>|<url or ~>|any     (run first)
 // ---------------------------------------------------------------------------------------------
 
 fn corpus(run: &mut Run) {
@@ -835,7 +823,11 @@ fn corpus(run: &mut Run) {
                 Some(StdKey::Time) | Some(StdKey::PrepTime) | Some(StdKey::CookTime) => run.time(ci, &v, &e, "corpus"),
                 Some(StdKey::Servings) => run.servings(&v, &Expect::Silent, "corpus"),
                 Some(StdKey::Tags) => run.tags(&v, &Expect::Silent, "corpus"),
-                Some(StdKey::Author) | Some(StdKey::Source) => run.nameurl(&v, &Expect::Silent, "corpus"),
+                Some(StdKey::Author) | Some(StdKey::Source) => {
+                    let e = match p[3].strip_prefix("nu:").and_then(|x| x.split_once('|')) {
+                        Some((n, u)) => { let o = |x: &str| if x == "~" { None } else { Some(x.to_string()) }; Expect::exactly(Some((o(n), o(u)))) }
+                        None => Expect::Silent };
+                    run.nameurl(&v, &e, "corpus") }
                 Some(StdKey::Locale) => run.locale(&v, &Expect::Silent, "corpus"),
                 _ => {}
             }
